@@ -198,3 +198,18 @@ def predicates(A, q, t, nvec):
                 "anorm": na,
             })
     return out, m
+
+
+def prefix_predicates(M, Q, T, w):
+    """orth / proj / supp of the first w Lanczos vectors of one (Q, T) (float64 tensors): the part of a run
+    that precedes the first breakdown of its column"""
+    Qw, Tw = Q[:, :w], T[:w, :w]
+    na = max(float(M.abs().max()), 1e-300)
+    nan = not (bool(torch.isfinite(Qw).all()) and bool(torch.isfinite(Tw).all()))
+    if nan:
+        return {"nan": True, "orth": float("nan"), "proj": float("nan"), "supp": float("nan")}
+    R = M @ Qw - Qw @ Tw
+    return {"nan": False,
+            "orth": float((Qw.T @ Qw - torch.eye(w, dtype=F64)).abs().max()),
+            "proj": float((Qw.T @ M @ Qw - Tw).abs().max()) / na,
+            "supp": float(R[:, : w - 1].abs().max()) / na if w > 1 else 0.0}
